@@ -488,10 +488,12 @@ bool load_frontier(const std::string& path, std::vector<Item>& local) {
     return true;
 }
 
+static int g_pin = 1;     // decided once per run from the load the machine had before we started
 void worker_loop(int wid, int level, int maxlevel, int maxworkers, Bounds B, const char* tier, const std::string& base) {
     {   // worker and its runner strictly alternate: keep both on one CPU (cross-CPU wake-ups are costly in this VM)
+        // ... but only on a machine that is otherwise idle: pinned to a CPU that other work keeps busy, a worker starves
         cpu_set_t cs; CPU_ZERO(&cs); long nc = sysconf(_SC_NPROCESSORS_ONLN); CPU_SET(wid % (nc > 0 ? nc : 1), &cs);
-        if (!getenv("PMC_NOPIN")) sched_setaffinity(0, sizeof cs, &cs);
+        if (g_pin) sched_setaffinity(0, sizeof cs, &cs);
     }
     T = alloc_trace();
     char lp[600]; snprintf(lp, sizeof lp, "%s/child.%s.%d.log", g_builddir.c_str(), pmc_target(), wid); g_logpath = lp;
@@ -766,6 +768,9 @@ extern "C" int pmc_main(int argc, char** argv) {
         return o.status == ST_OK ? 0 : o.status == ST_VIOLATION ? 1 : 2;
     }
 
+    {   double load = 0; long nc = sysconf(_SC_NPROCESSORS_ONLN);
+        if (FILE* lf = fopen("/proc/loadavg", "r")) { if (fscanf(lf, "%lf", &load) != 1) load = 0; fclose(lf); }
+        g_pin = (!getenv("PMC_NOPIN") && load < (nc > 0 ? nc : 1) * 0.5) ? 1 : 0; }
     const char* tier = argval("--tier", "quick");
     int tieridx = !strcmp(tier, "thorough") ? 1 : 0;
     int workers = atoi(argval("--workers", "16"));
